@@ -780,3 +780,92 @@ FIXED = {
     'type-param-names': '(module\n  (type $t (func (param $x i32) (result i32)))\n  (table 1 funcref)\n  (func $f (export "f") (param $a i32) (result i32) local.get $a i32.const 0 call_indirect (type $t))\n)\n',
     'plain': '(module $plain\n  (import "env" "log" (func $log (param i32)))\n  (memory $mem 1 2)\n  (table $tab 2 funcref)\n  (type $t (func (param i32) (result i32)))\n  (global $g (mut i32) (i32.const 5))\n  (global $c i64 (i64.const -9))\n  (export "memory" (memory $mem))\n  (export "g" (global $g))\n  (func $id (export "id") (param $a i32) (result i32)\n    (local $t i32)\n    block $out (result i32)\n      local.get $a\n      local.tee $t\n      i32.const 0\n      call_indirect (type $t)\n      local.get $t\n      br_if $out\n      loop $again\n        local.get $t\n        i32.eqz\n        br_if $again\n      end\n    end\n    global.get $g\n    i32.add\n  )\n  (func $two (param i32) (result i32) local.get 0 i32.const 2 i32.mul)\n  (elem (i32.const 0) $two $id)\n  (data (i32.const 16) "a\\"b\\\\c\\n\\00")\n)\n',
 }
+
+
+# ---------------------------------------------------------------------------------------------------
+# modules with MANY distinct function types: multi-value block/loop/if types and call_indirect type uses
+# placed at chosen type indices (the block type index is a SIGNED 33-bit LEB128: 63|64 and 8191|8192 are
+# the boundaries where it stops coinciding with the unsigned form; 127|128 the unsigned boundary)
+def _filler_sig(i):
+    """the i-th parameter list in bijective base-4 numeration (length >= 1, no results): all distinct"""
+    i += 1
+    ps = []
+    while i > 0:
+        i -= 1
+        ps.append(VT[i % 4])
+        i //= 4
+    return tuple(ps)
+
+
+MV_RESULTS = [('i32', 'i64'), ('i64', 'i32'), ('i32', 'i32'), ('i64', 'i64'), ('f32', 'i32'), ('i32', 'f32'), ('f64', 'i32'),
+              ('i32', 'f64'), ('i32', 'i32', 'i32'), ('i64', 'f64'), ('f32', 'f32'), ('f64', 'f64'), ('i32', 'i64', 'i32'),
+              ('f32', 'f64'), ('f64', 'f32'), ('i64', 'i32', 'i64')]
+_CONST = {'i32': 'i32.const 1', 'i64': 'i64.const 2', 'f32': 'f32.const 1.5', 'f64': 'f64.const 2.5'}
+
+
+def gen_many_types(rng, targets=(63, 64, 127, 128), mode=None, extra=3):
+    """A valid module whose type section has a multi-value block type at every index in `targets` (filler
+    signatures everywhere else, `extra` more after the last target).
+    mode 'explicit': every type is an explicit (type …) definition; 'funcs': every type is introduced by a
+    function signature (in function order); 'mixed': explicit up to a random split point, functions afterwards.
+    For each target: one function using block, loop or if with that multi-value result type, and (when the
+    neighbouring filler type is an explicit, named one) a call_indirect (type $t<k>) of the filler type next to it."""
+    mode = mode or rng.choice(['explicit', 'funcs', 'mixed'])
+    targets = sorted(set(targets))
+    assert len(targets) <= len(MV_RESULTS)
+    n = targets[-1] + 1 + extra
+    split = n if mode == 'explicit' else (0 if mode == 'funcs' else rng.randrange(1, n))
+    slots = []                     # per type index: ('mv', results) | ('fill', params)
+    res_of = {}
+    order = list(MV_RESULTS)
+    rng.shuffle(order)
+    fi = 0
+    for k in range(n):
+        if k in targets:
+            res_of[k] = order[len(res_of)]
+            slots.append(('mv', res_of[k]))
+        else:
+            slots.append(('fill', _filler_sig(fi)))
+            fi += 1
+    L = [';; generated by gen/c05_watgen.py gen_many_types mode=%s targets=%s' % (mode, list(targets)), '(module $many']
+    for k in range(split):
+        kind, sig = slots[k]
+        if kind == 'mv':
+            L.append('  (type $t%d (func (result %s)))' % (k, ' '.join(sig)))
+        else:
+            L.append('  (type $t%d (func%s))' % (k, ''.join(' (param %s)' % t for t in sig)))
+    L.append('  (table 1 funcref)')
+    # the functions that USE the multi-value types; in 'funcs'/'mixed' mode a function's own signature introduces the
+    # type, so these must come at the right place among the fillers: build the function list in slot order instead
+    funcs = []
+    for k in range(split, n):
+        kind, sig = slots[k]
+        if kind == 'fill':
+            funcs.append('  (func $fill%d%s)' % (k, ''.join(' (param %s)' % t for t in sig)))
+        else:
+            funcs.append(_mv_func(rng, k, sig))
+    for k in targets:
+        if k < split:
+            funcs.append(_mv_func(rng, k, res_of[k]))
+    # call_indirect through the explicit filler types next to the targets
+    for k in targets:
+        for j in (k - 1, k + 1):
+            if 0 <= j < split and slots[j][0] == 'fill':
+                ps = slots[j][1]
+                body = '\n'.join('    ' + _CONST[t] for t in ps)
+                funcs.append('  (func $ci%d_%d\n%s\n    i32.const 0\n    call_indirect (type $t%d)\n  )' % (k, j, body, j))
+    L += funcs
+    L.append(')')
+    mod = Mod()
+    mod.text = '\n'.join(L) + '\n'
+    mod.features = {'many-types', 'many-types:' + mode} | {'blocktype-index-%d' % k for k in targets}
+    return mod
+
+
+def _mv_func(rng, k, res):
+    kind = rng.choice(['block', 'loop', 'if'])
+    consts = '\n'.join('      ' + _CONST[t] for t in res)
+    head = '  (func $mv%d (export "mv%d") (result %s)\n' % (k, k, ' '.join(res))
+    if kind == 'if':
+        return head + '    i32.const 1\n    if (result %s)\n%s\n    else\n%s\n    end\n  )' % (' '.join(res), consts, consts)
+    return head + '    %s $L%d (result %s)\n%s\n    end\n  )' % (kind, k, ' '.join(res), consts)
